@@ -154,7 +154,10 @@ func (tdLiveStream) Impl(c Case) string {
 	case "mtls":
 		opts = append(opts, testdirectory.WithMTLS(ht))
 	}
-	td := testdirectory.Start(ht, opts...)
+	td, serr := startDirectory(ht, opts...)
+	if td == nil {
+		return serr
+	}
 	defer td.Stop()
 	if p["late"] == "1" {
 		td.SetUsers(users...)
@@ -273,4 +276,25 @@ func (tdLiveStream) Oracle(c Case, impl string) (bool, string, string) {
 func (tdLiveStream) Class(c Case, impl string) (string, bool) {
 	p := kv(c.Line)
 	return p["transport"] + "/" + strings.Fields(impl + " -")[0], true
+}
+
+// startDirectory: testdirectory.Start picks a free port and binds it a moment later; on a loaded machine another
+// process may take the port in between, and Start then fails the test it believes it runs in (FailNow). That is the
+// machine's doing, not the directory's: try again, twice. A Start that fails three times in a row is reported.
+func startDirectory(ht *harnessT, opts ...testdirectory.Option) (td *testdirectory.Directory, verdict string) {
+	for attempt := 0; attempt < 3; attempt++ {
+		func() {
+			defer func() {
+				if r := recover(); r != nil {
+					td, verdict = nil, fmt.Sprintf("testdirectory.Start failed three times in a row: %v", r)
+				}
+			}()
+			td = testdirectory.Start(ht, opts...)
+		}()
+		if td != nil {
+			return td, ""
+		}
+		time.Sleep(50 * time.Millisecond)
+	}
+	return nil, verdict
 }
